@@ -10,6 +10,7 @@ K (model vs implementation): every entry of H(k) at the 16 momenta k in (pi/2)*{
    model at (w_x^+-1, w_y^+-1), one choice for the whole cell.  Helper functionals vs the Q model."""
 from lib import *  # noqa
 import gen
+import argforms as AF
 from koala import example_graphs as eg
 from koala.lattice import Lattice
 from koala.phase_space import k_hamiltonian_generator, analyse_hk, gap_over_phase_space
@@ -27,6 +28,41 @@ TRUST = [
     "coq/Model/Tiling.v (tile_unit_cell over the generated helpers) is tied to the code by C10's correspondence run",
 ]
 ASSUMPTIONS = ["real couplings J and bond variables u (so conj(0.5i J u) = -0.5i J u)", "unit cells with crossings in {-1,0,1}^2"]
+
+
+# ------------------------------------------------------------------ argument forms (argforms.py)
+# dtype / container / memory layout of u, J, the colouring, the momentum k and k_num are not part of their value.  Only what is
+# handed to koala is re-formed (form chosen from the values, so a failure replays); the model and the recomputation get the values.
+AF_FORMS = {
+    "ujk": ["int64", "int8", "int16", "int32", "float64", "float32", "int64+readonly", "int8+readonly", "int64+strided", "int8+strided", "float64+strided"],
+    "coloring": ["int64", "int8", "uint8", "int16", "int32", "intp", "int64+readonly", "int64+strided", "uint8+strided"],
+    "J": ["float64", "float32", "float64+readonly", "float64+strided", "float32+strided"],
+    "k": ["float64", "float64+readonly", "float64+strided", "float64+list", "float64+tuple", "float32", "float32+list"],   # float32 only when exact (e.g. k = 0)
+    "k_num(pair)": ["int64+list", "int64+tuple", "int64", "int8", "uint8", "int32+readonly", "int64+strided"],
+}
+AF_KNUM_SCALAR = ["int", "np.int64", "np.int32", "np.int8", "np.uint8", "np.intp"]
+AF_EXCLUDED = {
+    ("k_hamiltonian_generator.ujk", "list/tuple"): "type hint np.ndarray; with coloring=None `0.5j*J[0]*ujk` raises TypeError for a sequence (works by broadcasting only when a colouring is given)",
+    ("k_hamiltonian_generator.coloring", "list/tuple"): "type hint np.ndarray; J[tuple] is multi-axis indexing (IndexError)",
+    ("k_hamiltonian_generator.J", "list/tuple"): "type hint np.ndarray; J[coloring] on a list raises TypeError",
+    ("analyse_hk.k_num", "0-d array / length-1 sequence"): "documented as an int or a list for x and y; a 0-d array has __len__ but no [0] (IndexError)",
+    ("gap_over_phase_space.k_num", "list/tuple/array"): "type hint and docstring say int (one number for both directions)",
+}
+
+
+def arg_forms(res, arg, values, *key):
+    """`values` in the form handed to koala for argument `arg` (None stays None)"""
+    for (a, f), why in AF_EXCLUDED.items():
+        AF.exclude(res, a, f, why)
+    if values is None:
+        AF.note(res, arg, "None")
+        return None
+    if arg == "k_num":
+        if isinstance(values, int):
+            return AF.choose_scalar(res, "k_num(scalar)", values, AF_KNUM_SCALAR, *key)
+        return AF.choose(res, "k_num(pair)", values, AF_FORMS["k_num(pair)"], *key, base=np.int64)
+    base = {"ujk": np.int64, "coloring": np.int64, "J": np.float64, "k": np.float64}[arg]
+    return AF.choose(res, arg, values, AF_FORMS[arg], *key, base=base)
 
 
 def unit_cells(tier, seed, big=False):
@@ -130,7 +166,9 @@ def evaluate(ctx, cases, label, size_cap=700):
         res.hist["cell/multigraph"] = res.hist.get("cell/multigraph", 0) + bool(multigraph)
         res.hist["coloring/" + case["colmode"]] = res.hist.get("coloring/" + case["colmode"], 0) + 1
         lat = Lattice(P.copy(), E.copy(), C.copy())
-        Hk = k_hamiltonian_generator(lat, col, u, J)
+        a_col, a_u, a_J = arg_forms(res, "coloring", col), arg_forms(res, "ujk", u), arg_forms(res, "J", J)
+        Hk_ = k_hamiltonian_generator(lat, a_col, a_u, a_J)
+        Hk = lambda k, n_=[0]: Hk_(arg_forms(res, "k", k, n_.__setitem__(0, n_[0] + 1) or n_[0]))     # every momentum in a form of its own
         rng = np.random.default_rng([case["seed"], 77])
         tag = f"{cell.get('name', cell['family'])}{cell.get('args', '')} (n={n}, colouring {case['colmode']})"
         # ---------------- S: Hermitian, periodic, k = 0
@@ -192,8 +230,8 @@ def evaluate(ctx, cases, label, size_cap=700):
             res.skip("helpers: one-site cell has an empty lower half")
         for knum in ([] if n < 2 else [3, [2, 3]] if n <= 40 else [2]):
             try:
-                gs, gap, klist, en = analyse_hk(Hk, knum, return_all_results=True)
-                gs2, gap2 = analyse_hk(Hk, knum)
+                gs, gap, klist, en = analyse_hk(Hk_, arg_forms(res, "k_num", knum, n, 0), return_all_results=True)
+                gs2, gap2 = analyse_hk(Hk_, arg_forms(res, "k_num", knum, n, 1))
             except Exception as e:
                 res.violation("analyse_hk-raises", f"{tag}: analyse_hk(k_num={knum}) raised {type(e).__name__}: {e}", case)
                 continue
@@ -220,8 +258,8 @@ def evaluate(ctx, cases, label, size_cap=700):
             helper_meta.append((case, tag, knum, gs, gap, [float(np.min(np.abs(s))) for s in spectra]))
         if n <= 40:
             knum = 3
-            gaps, kv = gap_over_phase_space(Hk, knum, return_k_values=True)
-            gaps1 = gap_over_phase_space(Hk, knum)
+            gaps, kv = gap_over_phase_space(Hk_, arg_forms(res, "k_num", knum, n, 2), return_k_values=True)
+            gaps1 = gap_over_phase_space(Hk_, arg_forms(res, "k_num", knum, n, 3))
             kvals = 2 * np.pi * np.arange(knum) / knum
             wantk = np.array([[[kvals[b], kvals[a]] for b in range(knum)] for a in range(knum)])
             if kv.shape != wantk.shape or np.max(np.abs(kv - wantk)) > 1e-12:
@@ -230,6 +268,8 @@ def evaluate(ctx, cases, label, size_cap=700):
                 want = np.array([[np.min(np.abs(np.linalg.eigvalsh(Hk(wantk[a, b])))) for b in range(knum)] for a in range(knum)])
                 if gaps.shape != want.shape or np.max(np.abs(gaps - want)) > 1e-9 or np.max(np.abs(gaps1 - gaps)) > 1e-12:
                     res.violation("gap-grid", f"{tag}: gap_over_phase_space is not the per-momentum min|E|", case)
+        if not (np.array_equal(a_u, u) and np.array_equal(a_J, J) and (col is None or np.array_equal(a_col, col))):
+            res.violation("argument-modified", f"{tag}: k_hamiltonian_generator / its closure modified coloring / ujk / J", case)
         res.sample({"case": {k: v for k, v in case.items() if k != "sizes"}, "n_sites": n, "n_edges": int(len(E)), "multigraph": bool(multigraph),
                     "H(pi/2,0)[0]": [str(x) for x in imps[idx[(1, 0)]][0][:4]], "max_spectrum_difference": float(worst)})
     # helper functionals: model vs implementation
